@@ -5,6 +5,8 @@ import (
 	"math"
 	"sort"
 
+	"pgregory.net/rapid"
+	"verifharness/gen"
 	"verifharness/kit"
 )
 
@@ -498,3 +500,8 @@ func sameTris(a, b []kit.Tri) bool {
 // volTol is the tolerance for "volume unchanged": 1e-9 relative plus the rounding of
 // the volume sum itself (terms of magnitude size^3, a few thousand of them).
 func volTol(v float64, size float64) float64 { return 1e-9*math.Abs(v) + 1e-12*size*size*size }
+
+// pickOf draws a list element uniformly (rapid.SampledFrom prefers the first entries).
+func pickOf[T any](t *rapid.T, xs []T, label string) T {
+	return xs[gen.Int(t, 0, len(xs)-1, label)]
+}
